@@ -141,6 +141,41 @@ def k_long(ctx, a, b, w):
         ctx.violation("metric:long:pdist", "pdist of two long strings is wrong", pv.describe(), e)
 
 
+def k_pdist_big(ctx, m, w, np_seed):
+    """Thousands of strings drawn from a few dozen distinct ones: every entry of the condensed vector is compared with the table of
+    distances between the distinct strings (row by row, vectorised)."""
+    import numpy as np
+    rng = random.Random(np_seed)
+    distinct = sorted({G.rand_string(rng, "ACDEFGHIK", 0, 9) for _ in range(60)})
+    pick = np.array([rng.randrange(len(distinct)) for _ in range(m)])
+    X = [distinct[k] for k in pick]
+    ins, dele, sub = w
+    D = np.array([[O.wlev(a, b, ins, dele, sub) for b in distinct] for a in distinct], dtype=float)
+    met = _metric(ins, dele, sub, tuple(w) == (1, 1, 1))
+    ctx.count("pdist_big_cases")
+    ctx.nontriv(["pbig", m, w, np_seed])
+    ctx.sample("pdist_big", {"m": m, "weights": w, "distinct": len(distinct)})
+    out = ctx.call(met.calc_pdist_vector, X)
+    if not out.ok:
+        ctx.violation("metric:pdist:big:raised", "calc_pdist_vector raised on a large collection", out.describe(), None)
+        return
+    v = np.asarray(out.value)
+    if v.shape != (m * (m - 1) // 2,):
+        ctx.violation("metric:pdist:big:shape", "pdist vector has the wrong length", list(v.shape), [m * (m - 1) // 2])
+        return
+    off = 0
+    for i in range(m - 1):
+        seg = v[off:off + m - i - 1].astype(float)
+        want = D[pick[i], pick[i + 1:]]
+        if not np.array_equal(seg, want):
+            j = int(np.argmax(seg != want)) + i + 1
+            ctx.violation("metric:pdist:big:layout", f"m={m}: entry for (i={i}, j={j}) at condensed index {cidx(m, i, j)} is {float(v[cidx(m, i, j)])}, distance X[i]->X[j] is {float(D[pick[i], pick[j]])}",
+                          None, None, {"weights": w})
+            return
+        off += m - i - 1
+    ctx.count("pdist_entries_checked", m * (m - 1) // 2)
+
+
 def k_hugeweights(ctx, A, B, w):
     """Weights of 10^6 .. 10^9: the result matrix is single precision, so the comparison is made at float32 resolution
     (relative 2^-22); a wrapped or truncated total is off by orders of magnitude."""
@@ -241,7 +276,7 @@ def k_fn(ctx, X, B=None, mode="order", kw=None):
                           seen_kwargs[:3], kw)
 
 
-KINDS = {"metric": k_metric, "long": k_long, "fn": k_fn, "hugeweights": k_hugeweights}
+KINDS = {"metric": k_metric, "long": k_long, "fn": k_fn, "hugeweights": k_hugeweights, "pdist_big": k_pdist_big}
 
 
 def generate(tier, seed):
@@ -283,6 +318,11 @@ def generate(tier, seed):
     # strings that differ by a trailing NUL or control character only (plain lists: no fixed-width array in the harness)
     yield "metric", {"A": G.NUL_STRINGS, "B": G.NUL_STRINGS + ["A\n", "A\x00B"], "w": [1, 1, 1], "plain": True}, True
     yield "metric", {"A": G.NUL_STRINGS, "B": G.NUL_STRINGS + ["A\n", "A\x00B"], "w": [2, 3, 4]}, True
+    # collections of thousands of strings (condensed vectors of millions of entries; thorough: beyond 2^13 strings / 2^25 entries)
+    yield "pdist_big", {"m": 2049, "w": [1, 1, 1], "np_seed": 8800 + seed}, True
+    if thorough:
+        yield "pdist_big", {"m": 8200, "w": [1, 1, 1], "np_seed": 8801 + seed}, True
+        yield "pdist_big", {"m": 4100, "w": [2, 3, 4], "np_seed": 8802 + seed}, True
     # very large weights (totals beyond 2^32)
     for w in ([10 ** 9, 10 ** 9, 1], [2 ** 24, 2 ** 24, 2 ** 24], [10 ** 7, 3 * 10 ** 7, 5 * 10 ** 7], [1, 1, 10 ** 9]):
         yield "hugeweights", {"A": ["CASSLGQGNTEAFF", "", "A" * 256, "CAF"], "B": ["CAF", "A" * 256, "CASSLGQGNTEAFF", "C" * 300], "w": w}, True
